@@ -121,7 +121,15 @@ def r2(rr, repo):
 @rule('C16.R3', 'default is lock-down: read_allowlist returns a set on every path, the fall-through value is the empty set, and the client passes it unmodified')
 def r3(rr, repo):
     mod, fn = repo.find(f'{CF}::read_allowlist')
-    ev = Evaluator(repo, mod)
+
+    def inline(call, rc, path):     # helpers of the same module are part of the decision (e.g. a `_read_allowlist_file`)
+        if isinstance(rc.func, ast.Name):
+            for st in mod.tree.body:
+                if isinstance(st, ast.FunctionDef) and st.name == rc.func.id and st is not fn:
+                    return (mod, st, None)
+        return None
+    ev = Evaluator(repo, mod, inline=inline)
+    ev.explore_handlers = True       # a configured file that cannot be read / parsed must fall back to lock-down, not to "allow all"
     paths = ev.run(fn.body)
     rr.paths += len(paths)
     n = 0
@@ -134,7 +142,8 @@ def r3(rr, repo):
             continue
         n += 1
         t = U(o[1])
-        rr.ob('read_allowlist returns a set(...)', t.startswith('set('), mod, fn, witness=t[:100], key=f'returns-set|{t[:30]}')
+        rr.ob('read_allowlist returns a set(...) on every path, also when reading the configured file failed (None would mean "allow all" to the exporter)', t.startswith('set('), mod, fn,
+              witness=f'{p.pc_text()[-160:]} => return {t[:60]}', key=f'returns-set|{t[:30]}')
         envs = [v for k, v in p.facts.items() if k.startswith('truthy(os.getenv(')]
         if envs and not any(envs):
             rr.ob('with neither file nor variable configured the allow-list is the empty set', t == 'set()', mod, fn, witness=t, key='default-empty')
